@@ -42,9 +42,10 @@ const (
 	opUnlock
 	opRUnlock
 	opOnce
+	opWait
 )
 
-var kindNames = [...]string{"start", "point", "go", "send", "recv", "close", "select", "sleep", "lock", "rlock", "unlock", "runlock", "once"}
+var kindNames = [...]string{"start", "point", "go", "send", "recv", "close", "select", "sleep", "lock", "rlock", "unlock", "runlock", "once", "wgwait"}
 
 // Op is one case of a select.
 type Op struct {
@@ -67,6 +68,7 @@ type pending struct {
 	mu         *Mutex
 	rw         *RWMutex
 	once       *Once
+	wg         *WaitGroup
 }
 
 type thread struct {
@@ -193,6 +195,8 @@ func (e *Exec) enabled(t *thread) bool {
 		return !t.op.rw.writer
 	case opOnce:
 		return !t.op.once.running
+	case opWait:
+		return t.op.wg.n <= 0
 	}
 	return true
 }
@@ -739,3 +743,52 @@ func (o *Once) Do(f func()) {
 
 // Reset makes the Once fire again (cold-start exploration).
 func (o *Once) Reset() { *o = Once{} }
+
+// WaitGroup replaces sync.WaitGroup.
+type WaitGroup struct {
+	n    int
+	real sync.WaitGroup
+}
+
+func (w *WaitGroup) Add(delta int) {
+	if active == nil {
+		w.real.Add(delta)
+		return
+	}
+	hook(pending{kind: opPoint, label: "wg-add"})
+	w.n += delta
+}
+func (w *WaitGroup) Done() { w.Add(-1) }
+func (w *WaitGroup) Wait() {
+	if active == nil {
+		w.real.Wait()
+		return
+	}
+	hook(pending{kind: opWait, label: "wg-wait", wg: w})
+}
+
+var timeBase = time.Date(2026, 1, 1, 0, 0, 0, 0, time.UTC)
+
+// NowTime replaces time.Now: the virtual clock while an execution is active.
+func NowTime() time.Time {
+	if active == nil {
+		return time.Now()
+	}
+	return timeBase.Add(active.Clock)
+}
+
+// Since replaces time.Since.
+func Since(t time.Time) time.Duration { return NowTime().Sub(t) }
+
+// After replaces time.After: a channel that receives once the virtual clock has advanced by d.
+func After(d time.Duration) <-chan time.Time {
+	if active == nil {
+		return time.After(d)
+	}
+	ch := make(chan time.Time, 1)
+	Go(func() {
+		Sleep(d)
+		Send(ch, NowTime())
+	})
+	return ch
+}
